@@ -226,6 +226,8 @@ func verifLemmaTraversalComplete(E iface.IPFSLogOrderedEntries, H iface.IPFSLogO
 //@ @wf ensures [append-keeps-the-log-predecessor-closed] closedLog(l)
 //@ @wf ensures [append-keeps-hash-links-ranked] rankedLog(l)
 //@ @wf ensures [append-keeps-one-log-id] oneLogID(l)
+//@ @wf ensures [no-entry-names-a-head] forall k string, k2 string, j int :: has(hds(l), k) && has(ent(l), k2) && 0 <= j && j < len(ent(l)[k2].Next) ==> str(ent(l)[k2].Next[j]) != k
+//@ @wf ensures [an-entry-that-is-no-head-is-named-by-its-index-record] forall k string :: has(ent(l), k) ==> has(hds(l), k) || (has(idx(l), k) && has(ent(l), ehash(idx(l)[k])) && ent(l)[ehash(idx(l)[k])] == idx(l)[k] && names(idx(l)[k], k))
 //@ @wf ensures [heads-are-exactly-the-unreferenced-entries] headsExact(l)
 //@ @wf ensures [log-with-entries-has-a-head] len(om(l.Entries).keys) > 0 && err == nil ==> len(om(l.heads).keys) > 0
 //@   ensures [appended-entry-is-the-single-head] err == nil ==> forall k string :: has(om(l.heads).values, k) <==> k == ehash(result0)
@@ -550,6 +552,8 @@ func verifLemmaSourceConnected(o *IPFSLog, A iface.IPFSLogOrderedEntries) {
 //@ @wf ensures [merged-heads-are-entries] err == nil && size < 0 && l != nil ==> headsIn(l)
 //@ @wf ensures [merged-heads-are-unreferenced] err == nil && size < 0 && l != nil ==> headsUnref(l)
 //@ @wf ensures [every-unreferenced-entry-is-a-merged-head] err == nil && size < 0 && l != nil ==> headsAll(l)
+//@ @wf ensures [no-entry-names-a-head] err == nil && size < 0 && l != nil ==> forall k string, k2 string, j int :: has(hds(l), k) && has(ent(l), k2) && 0 <= j && j < len(ent(l)[k2].Next) ==> str(ent(l)[k2].Next[j]) != k
+//@ @wf ensures [an-entry-that-is-no-head-is-named-by-its-index-record] err == nil && size < 0 && l != nil ==> forall k string :: has(ent(l), k) ==> has(hds(l), k) || (has(idx(l), k) && has(ent(l), ehash(idx(l)[k])) && ent(l)[ehash(idx(l)[k])] == idx(l)[k] && names(idx(l)[k], k))
 //@ @wf ensures [heads-are-exactly-the-unreferenced-entries] err == nil && size < 0 && l != nil ==> headsExact(l)
 //@ @wf ensures [merge-result-is-the-union-of-both-entry-sets] err == nil && size < 0 && l != nil && otherLog != nil && otherLog.(*IPFSLog) != l && l.ID == otherLog.(*IPFSLog).ID ==> forall k string :: has(ent(l), k) <==> old(has(ent(l), k)) || old(has(ent(otherLog.(*IPFSLog)), k))
 //@ @wf ensures [merged-entries-are-the-source-objects] err == nil && size < 0 && l != nil && otherLog != nil && otherLog.(*IPFSLog) != l ==> forall k string :: has(ent(l), k) && !old(has(ent(l), k)) ==> old(has(ent(otherLog.(*IPFSLog)), k)) && ent(l)[k] == old(ent(otherLog.(*IPFSLog))[k])
